@@ -100,7 +100,8 @@ void h_gcm_oneshot(void)
 	uint8_t T[16]; expect_tag(&g_log[0], T);
 	int match = 1; for (int i = 0; i < TAGLEN; i++) if (T[i] != tag[i]) match = 0;
 	CHECK((ret == 1) == match, "accept <=> every one of the taglen tag bytes equals E(Y0) xor GHASH");
-	if (ret == 1) { uint8_t y1[16]; memcpy(y1, iv, 12); y1[12] = y1[13] = y1[14] = 0; y1[15] = 2;
+	if (ret == 1) {
+		V_COVER("accept path 1"); uint8_t y1[16]; memcpy(y1, iv, 12); y1[12] = y1[13] = y1[14] = 0; y1[15] = 2;
 		for (int i = 0; i < 16; i++) CHECK(c_ctr0[i] == y1[i], "payload decrypted with counter inc32(Y0)");
 		CHECK(c_n == N, "whole ciphertext decrypted"); }
 	else CHECK(c_n == 0, "no plaintext released on failure");
